@@ -60,7 +60,7 @@ def run(ck):
     ck.obligation('build the library and the driver with AddressSanitizer + UBSan (alignment / shift-base classes off)', oka, alog[-300:])
     if oka:
         astamp = 'asan' + stamp
-        aruns = [dict(w=192, h=128, n=4, content=2, decode=1, recon=0, dec_threads=t, **{'f:enc_mode': 8, 'f:tile_columns': 1, 'f:enable_restoration_filtering': 0, 'env:ASAN_OPTIONS': 'detect_leaks=0:abort_on_error=1', 'env:UBSAN_OPTIONS': 'print_stacktrace=1'}) for t in (1, 4)]
+        aruns = [dict(w=192, h=128, n=4, content=2, decode=1, recon=0, dec_threads=t, **{'f:enc_mode': 8, 'f:tile_columns': 1, 'f:enable_restoration_filtering': 0, 'env:ASAN_OPTIONS': 'detect_leaks=0:abort_on_error=1', 'env:UBSAN_OPTIONS': 'print_stacktrace=0', 'env:SCN_KEEP_STDERR': '1'}) for t in (1, 4)]
         ares = e2e.run_many(abin, astamp, aruns, timeout=900, jobs=2)
         for a, r in zip(aruns, ares):
             ck.evals += 1
